@@ -21,7 +21,19 @@
 //	timer <height>                        $timer_task.Do (what the miner's timer tx does at that height)
 //	cvr <via> <pid> / trig <via> <pid>    $proposal.CheckVoteResult / Trigger reached from O or D
 //
-// answer: "<ok|reject>[ <pid>] | <canonical dump of the governToken and proposal buckets>"
+// the REAL $tdpos kernel methods (registered by tdpos.NewTdposConsensus on the same contract manager; they
+// read their election records from the ledger snapshot of the block height the caller names and write
+// through the contract context):
+//
+//	nominate <init> <cand> <amount> <auth> <h>   $tdpos.nominateCandidate, initiator <init>, candidate <cand>,
+//	                                             AuthRequire = [init] plus [cand] when <auth> = 1
+//	revnom   <init> <cand> <h>                   $tdpos.revokeNominate
+//	tvote    <init> <cand> <amount> <h>          $tdpos.voteCandidate
+//	trevoke  <init> <cand> <amount> <h>          $tdpos.revokeVote
+//	seal                                         a new block: tip height + 1, its snapshot = the committed $tdpos bucket
+//	         <h>: a block height, or `+` = seal first, then name the new tip (what a well-behaved client does)
+//
+// answer: "<ok|reject>[ <pid>] | <canonical dump of the governToken, proposal and $tdpos buckets>"
 package main
 
 import (
@@ -37,7 +49,11 @@ import (
 	"strconv"
 	"strings"
 
+	"github.com/xuperchain/xupercore/bcs/consensus/tdpos"
 	xledger "github.com/xuperchain/xupercore/bcs/ledger/xledger/ledger"
+	"github.com/xuperchain/xupercore/kernel/common/xcontext"
+	cctx "github.com/xuperchain/xupercore/kernel/consensus/context"
+	"github.com/xuperchain/xupercore/kernel/consensus/def"
 	"github.com/xuperchain/xupercore/kernel/contract"
 	cpb "github.com/xuperchain/xupercore/kernel/contract/bridge/pb"
 	_ "github.com/xuperchain/xupercore/kernel/contract/kernel"
@@ -91,6 +107,7 @@ func (fakeCore) QueryBlock(blockid []byte) (ledger.BlockHandle, error) {
 var (
 	scratchDir string
 	mgrCache   = map[string]contract.Manager{}
+	tdposInsts []interface{} // keeps the plugin instances alive
 )
 
 func acctName(i int) string {
@@ -163,7 +180,32 @@ func newManager(pre []xledger.Predistribution) contract.Manager {
 	if _, err := timerTask.NewTimerTaskManager(tctx); err != nil {
 		xvlib.Die("timer manager: %v", err)
 	}
+	// the real tdpos plugin registers nominateCandidate / revokeNominate / voteCandidate / revokeVote of $tdpos
+	curWorld = nil
+	ac := xvlib.NewAccount(0)
+	tcfg, _ := json.Marshal(map[string]interface{}{
+		"timestamp": "0", "proposer_num": "1", "period": "3000", "alternate_interval": "3000", "term_interval": "6000",
+		"block_num": "10", "vote_unit_price": "1", "init_proposer": map[string][]string{"1": {ac.Address}},
+	})
+	inst := tdpos.NewTdposConsensus(cctx.ConsensusCtx{
+		BaseCtx:  xcontext.BaseCtx{XLog: xvlib.Logger("tdpos")},
+		BcName:   bcName,
+		Address:  &cctx.Address{Address: ac.Address, PrivateKeyStr: ac.PriJSON, PublicKeyStr: ac.PubJSON, PrivateKey: ac.Pri, PublicKey: ac.Pub},
+		Crypto:   xvlib.Crypto(),
+		Contract: m,
+		Ledger:   tdLedger{},
+		Network:  &stubNet{account: ac.Address},
+	}, def.ConsensusConfig{ConsensusName: "tdpos", Config: string(tcfg), StartHeight: tdStartHeight, Index: 0})
+	if inst == nil {
+		xvlib.Die("NewTdposConsensus returned nil")
+	}
+	tdposInsts = append(tdposInsts, inst)
 	reg := m.GetKernRegistry()
+	for _, m := range []string{"nominateCandidate", "revokeNominate", "voteCandidate", "revokeVote"} {
+		if _, err := reg.GetKernMethod(utils.TDPOSKernelContract, m); err != nil {
+			xvlib.Die("the tdpos plugin did not register $tdpos.%s: %v", m, err)
+		}
+	}
 	for _, c := range []string{utils.ProposalKernelContract, utils.TDPOSKernelContract, utils.XPOSKernelContract, "$xvother"} {
 		reg.RegisterKernMethod(c, "XvForward", forward)
 	}
@@ -181,6 +223,47 @@ type world struct {
 	store *sandbox.MemXModel
 	mgr   contract.Manager
 	ntx   int
+	// one snapshot of the committed $tdpos bucket per sealed block (heights tdBaseTip+1, ...): "bucket/key" -> value
+	tdSnaps []map[string][]byte
+}
+
+func (w *world) tip() int { return tdBaseTip + len(w.tdSnaps) }
+
+// tdBucket: the committed $tdpos bucket
+func (w *world) tdBucket() map[string][]byte {
+	m := map[string][]byte{}
+	it, _ := w.store.Select(utils.TDPOSKernelContract, nil, nil)
+	for it.Next() {
+		m[utils.TDPOSKernelContract+"/"+string(it.Key())] = append([]byte{}, it.Value().PureData.Value...)
+	}
+	return m
+}
+
+// seal: a new block on top; its snapshot is what has been committed so far
+func (w *world) seal() { w.tdSnaps = append(w.tdSnaps, w.tdBucket()) }
+
+// staleAt: the snapshot of block h differs from the committed election records (the revoke log aside)
+func (w *world) staleAt(h int) bool {
+	if h <= tdStartHeight || h > w.tip() {
+		return false
+	}
+	snap := map[string][]byte{}
+	if i := h - tdBaseTip - 1; i >= 0 {
+		snap = w.tdSnaps[i]
+	}
+	cur := w.tdBucket()
+	rk := utils.TDPOSKernelContract + "/tdpos_0_revoke"
+	for k, v := range cur {
+		if k != rk && string(snap[k]) != string(v) {
+			return true
+		}
+	}
+	for k := range snap {
+		if _, ok := cur[k]; !ok && k != rk {
+			return true
+		}
+	}
+	return false
 }
 
 func newWorld(pre []xledger.Predistribution) *world {
@@ -190,6 +273,11 @@ func newWorld(pre []xledger.Predistribution) *world {
 // invoke runs one top-level kernel call like a transaction: sandbox over the store, real context,
 // commit the write set iff the call returned no error.
 func (w *world) invoke(contractName, method, initiator string, args map[string][]byte) (resp *contract.Response, err error) {
+	return w.invokeAuth(contractName, method, initiator, []string{initiator}, args)
+}
+
+func (w *world) invokeAuth(contractName, method, initiator string, auth []string, args map[string][]byte) (resp *contract.Response, err error) {
+	curWorld = w
 	defer func() {
 		if r := recover(); r != nil {
 			resp, err = nil, fmt.Errorf("panic: %v", r)
@@ -204,7 +292,7 @@ func (w *world) invoke(contractName, method, initiator string, args map[string][
 		ContractName:   contractName,
 		State:          state,
 		Initiator:      initiator,
-		AuthRequire:    []string{initiator},
+		AuthRequire:    auth,
 		ResourceLimits: contract.MaxLimits,
 	})
 	if err != nil {
@@ -250,6 +338,11 @@ type prop struct {
 	proposer int
 }
 
+type nomRec struct {
+	nominator int
+	amount    int64
+}
+
 type snap struct {
 	supply      *int64
 	distributed bool
@@ -258,8 +351,17 @@ type snap struct {
 	locks       map[[2]int]int64 // (pid, acct) -> amount
 	lastPid     int
 	tasks       int
+	noms        map[int]nomRec   // $tdpos nominate record: candidate -> (nominator, deposit)
+	tdVotes     map[[2]int]int64 // $tdpos vote records: (candidate, voter) -> ballots
+	tip         int
 	junk        []string
 }
+
+const (
+	tdNominateKey = "tdpos_0_nominate"
+	tdVotePrefix  = "tdpos_0_vote_"
+	tdRevokeKey   = "tdpos_0_revoke"
+)
 
 var statusCode = map[string]string{
 	utils.ProposalStatusVoting: "V", utils.ProposalStatusCancelled: "C", utils.ProposalStatusRejected: "R",
@@ -277,7 +379,7 @@ func toI64(b *big.Int) int64 {
 }
 
 func (w *world) snapshot() *snap {
-	s := &snap{bal: map[int]rec{}, props: map[int]prop{}, locks: map[[2]int]int64{}}
+	s := &snap{bal: map[int]rec{}, props: map[int]prop{}, locks: map[[2]int]int64{}, noms: map[int]nomRec{}, tdVotes: map[[2]int]int64{}, tip: w.tip()}
 	it, _ := w.store.Select(utils.GetGovernTokenBucket(), nil, nil)
 	for it.Next() {
 		k, v := string(it.Key()), it.Value().PureData.Value
@@ -343,6 +445,39 @@ func (w *world) snapshot() *snap {
 			s.tasks++
 		}
 	}
+	// the $tdpos bucket, decoded with encoding/json into plain maps (not the contract's own types)
+	it, _ = w.store.Select(utils.TDPOSKernelContract, nil, nil)
+	for it.Next() {
+		k, v := string(it.Key()), it.Value().PureData.Value
+		switch {
+		case k == tdNominateKey:
+			var m map[string]map[string]int64
+			if err := json.Unmarshal(v, &m); err != nil {
+				s.junk = append(s.junk, "tdkey:"+k)
+				continue
+			}
+			for c, r := range m {
+				if len(r) != 1 {
+					s.junk = append(s.junk, fmt.Sprintf("nominate-record:%s:%d-nominators", c, len(r)))
+				}
+				for n, amt := range r {
+					s.noms[acctID(c)] = nomRec{acctID(n), amt}
+				}
+			}
+		case strings.HasPrefix(k, tdVotePrefix):
+			var m map[string]int64
+			if err := json.Unmarshal(v, &m); err != nil {
+				s.junk = append(s.junk, "tdkey:"+k)
+				continue
+			}
+			for voter, amt := range m {
+				s.tdVotes[[2]int{acctID(k[len(tdVotePrefix):]), acctID(voter)}] = amt
+			}
+		case k == tdRevokeKey: // the log of withdrawals: carries no stake
+		default:
+			s.junk = append(s.junk, "tdkey:"+k)
+		}
+	}
 	return s
 }
 
@@ -391,7 +526,30 @@ func (s *snap) dump() string {
 	for _, k := range lk {
 		fmt.Fprintf(&b, " L%d.%d=%d", k[0], k[1], s.locks[k])
 	}
-	fmt.Fprintf(&b, " | T=%d", s.tasks)
+	fmt.Fprintf(&b, " | T=%d |", s.tasks)
+	ids = ids[:0]
+	for c := range s.noms {
+		ids = append(ids, c)
+	}
+	sort.Ints(ids)
+	for _, c := range ids {
+		fmt.Fprintf(&b, " N%d=%d/%d", c, s.noms[c].nominator, s.noms[c].amount)
+	}
+	b.WriteString(" |")
+	lk = lk[:0]
+	for k := range s.tdVotes {
+		lk = append(lk, k)
+	}
+	sort.Slice(lk, func(i, j int) bool {
+		if lk[i][0] != lk[j][0] {
+			return lk[i][0] < lk[j][0]
+		}
+		return lk[i][1] < lk[j][1]
+	})
+	for _, k := range lk {
+		fmt.Fprintf(&b, " V%d.%d=%d", k[0], k[1], s.tdVotes[k])
+	}
+	fmt.Fprintf(&b, " | H=%d", s.tip)
 	if len(s.junk) > 0 {
 		fmt.Fprintf(&b, " | JUNK %s", strings.Join(s.junk, ","))
 	}
@@ -411,6 +569,8 @@ type opInfo struct {
 	pid       int
 	ok        bool
 	malformed bool
+	height    int
+	stale     bool // a $tdpos call naming a block whose snapshot differs from the committed election records
 }
 
 // exec runs one op (not `reset`) on the real code.
@@ -424,14 +584,56 @@ func (w *world) exec(line string) (string, opInfo) {
 		}
 		return n
 	}
-	need := map[string]int{"init": 2, "xfer": 4, "lock": 5, "unlock": 5, "propose": 6, "vote": 4, "thaw": 3, "timer": 2, "cvr": 3, "trig": 3}
+	need := map[string]int{"init": 2, "xfer": 4, "lock": 5, "unlock": 5, "propose": 6, "vote": 4, "thaw": 3, "timer": 2, "cvr": 3, "trig": 3,
+		"nominate": 6, "revnom": 4, "tvote": 5, "trevoke": 5, "seal": 1}
 	if n, ok := need[f[0]]; !ok || len(f) != n {
 		info.malformed = true
 		return "bad-op", info
 	}
 	var resp *contract.Response
 	var err error
+	// tdCall: one of the four $tdpos methods; the last field of the op line is the height (`+`: new block first)
+	tdCall := func(method string, auth []string, args map[string][]byte) {
+		hs := f[len(f)-1]
+		if hs != "+" {
+			info.height = atoi(hs)
+		}
+		if info.malformed {
+			return
+		}
+		if hs == "+" {
+			w.seal()
+			info.height = w.tip()
+		}
+		info.stale = w.staleAt(info.height)
+		args["candidate"] = []byte(acctName(info.to))
+		args["height"] = []byte(strconv.Itoa(info.height))
+		resp, err = w.invokeAuth(utils.TDPOSKernelContract, method, acctName(info.acct), auth, args)
+	}
 	switch f[0] {
+	case "seal":
+		w.seal()
+		resp = &contract.Response{Status: 200}
+	case "nominate":
+		info.acct, info.to, info.amount = atoi(f[1]), atoi(f[2]), int64(atoi(f[3]))
+		auth := []string{acctName(info.acct)}
+		switch f[4] {
+		case "1":
+			auth = append(auth, acctName(info.to))
+		case "0":
+		default:
+			info.malformed = true
+		}
+		tdCall("nominateCandidate", auth, map[string][]byte{"amount": []byte(f[3])})
+	case "revnom":
+		info.acct, info.to = atoi(f[1]), atoi(f[2])
+		tdCall("revokeNominate", []string{acctName(info.acct)}, map[string][]byte{})
+	case "tvote":
+		info.acct, info.to, info.amount = atoi(f[1]), atoi(f[2]), int64(atoi(f[3]))
+		tdCall("voteCandidate", []string{acctName(info.acct)}, map[string][]byte{"amount": []byte(f[3])})
+	case "trevoke":
+		info.acct, info.to, info.amount = atoi(f[1]), atoi(f[2]), int64(atoi(f[3]))
+		tdCall("revokeVote", []string{acctName(info.acct)}, map[string][]byte{"amount": []byte(f[3])})
 	case "init":
 		info.acct = atoi(f[1])
 		resp, err = w.invoke(utils.GovernTokenKernelContract, "Init", acctName(info.acct), map[string][]byte{})
@@ -536,7 +738,14 @@ func allowedVia(v string) bool { return v == "P" || v == "T" || v == "X" }
 func oracle(op opInfo, line string, pre, post *snap) []viol {
 	var vs []viol
 	add := func(key, format string, a ...interface{}) {
-		vs = append(vs, viol{key, fmt.Sprintf(format, a...) + " (at `" + line + "`)"})
+		what := fmt.Sprintf(format, a...) + " (at `" + line + "`)"
+		if op.stale {
+			// the call named a block whose snapshot is not the committed state: the $tdpos methods read their
+			// election records from that snapshot, whatever has been committed since
+			key = tdOracleClass(key) + "-stale-snapshot"
+			what += fmt.Sprintf(" [the call names block %d, whose snapshot of the election records differs from the committed ones]", op.height)
+		}
+		vs = append(vs, viol{key, what})
 	}
 	// (1) conservation: sum of balances == total supply fixed at initialisation
 	// (reported at the call that introduces or changes the discrepancy)
@@ -610,6 +819,15 @@ func oracle(op opInfo, line string, pre, post *snap) []viol {
 					rel += pre.locks[[2]int{pid, a}]
 				}
 				okChange = ti == 0 && d < 0 && -d <= rel
+			case "nominate", "tvote":
+				// the INITIATOR's tokens are locked (tdpos type), whoever the candidate is
+				okChange = op.ok && a == op.acct && ti == 1 && d == op.amount
+			case "trevoke":
+				okChange = op.ok && a == op.acct && ti == 1 && d == -op.amount
+			case "revnom":
+				// the deposit recorded for this nomination goes back to the nominator who made it
+				r, has := pre.noms[op.to]
+				okChange = op.ok && a == op.acct && ti == 1 && has && r.nominator == a && d == -r.amount
 			}
 			if !okChange {
 				key := "lock-changed-by-" + op.kind
@@ -630,6 +848,113 @@ func oracle(op opInfo, line string, pre, post *snap) []viol {
 	}
 	if (op.kind == "cvr" || op.kind == "trig") && op.ok {
 		add("proposal-callback-unrestricted", "%s succeeded for a caller other than $timer_task", op.kind)
+	}
+	// (5) stakes bind: what an account has staked on a proposal that is still open (voting, or passed and not yet
+	// executed), on a nomination or on a TDPoS vote stays locked. No call other than a contract's explicit UnLock
+	// (the harness's forwarding stub, which keeps no books) may lower locked - open stakes of any account.
+	if op.kind != "unlock" {
+		s0, s1 := pre.stakes(), post.stakes()
+		for a := range accts {
+			p0, p1 := pre.bal[a], post.bal[a]
+			for ti, lk := range [2][2]int64{{p0.ord, p1.ord}, {p0.tdpos, p1.tdpos}} {
+				k := [2]int{a, ti}
+				if lk[1]-s1[k] < lk[0]-s0[k] {
+					add("open-stake-unlocked-by-"+op.kind, "account %d: locked[%s] %d -> %d while its open stakes are %d -> %d: %d staked tokens lost their lock",
+						a, [2]string{"o", "t"}[ti], lk[0], lk[1], s0[k], s1[k], (lk[0]-s0[k])-(lk[1]-s1[k]))
+				}
+			}
+		}
+	}
+	// (6) stake records change only through the staking calls of the account that owns them
+	for k, v1 := range post.locks {
+		if d := v1 - pre.locks[k]; d != 0 {
+			okRec := false
+			switch op.kind {
+			case "propose":
+				okRec = op.ok && k[1] == op.acct && k[0] == post.lastPid && post.lastPid == pre.lastPid+1 && d == 1000
+			case "vote":
+				okRec = op.ok && k[1] == op.acct && k[0] == op.pid && d == op.amount
+			}
+			if !okRec {
+				add("stake-record-changed-by-"+op.kind, "lock record of account %d for proposal %d changed by %d", k[1], k[0], d)
+			}
+		}
+	}
+	for k := range pre.locks {
+		if _, ok := post.locks[k]; !ok {
+			add("stake-record-changed-by-"+op.kind, "lock record of account %d for proposal %d disappeared", k[1], k[0])
+		}
+	}
+	cands := map[int]bool{}
+	for c := range pre.noms {
+		cands[c] = true
+	}
+	for c := range post.noms {
+		cands[c] = true
+	}
+	for c := range cands {
+		r0, h0 := pre.noms[c]
+		r1, h1 := post.noms[c]
+		okRec := h0 == h1 && r0 == r1
+		switch {
+		case !h0 && h1:
+			okRec = op.kind == "nominate" && op.ok && op.to == c && r1.nominator == op.acct && r1.amount == op.amount
+		case h0 && !h1:
+			okRec = op.kind == "revnom" && op.ok && op.to == c && r0.nominator == op.acct
+		}
+		if !okRec {
+			add("stake-record-changed-by-"+op.kind, "nomination record of candidate %d: %v(%v) -> %v(%v)", c, r0, h0, r1, h1)
+		}
+	}
+	vks := map[[2]int]bool{}
+	for k := range pre.tdVotes {
+		vks[k] = true
+	}
+	for k := range post.tdVotes {
+		vks[k] = true
+	}
+	for k := range vks {
+		if d := post.tdVotes[k] - pre.tdVotes[k]; d != 0 {
+			okRec := op.ok && k[0] == op.to && k[1] == op.acct && ((op.kind == "tvote" && d == op.amount) || (op.kind == "trevoke" && d == -op.amount))
+			if !okRec {
+				add("stake-record-changed-by-"+op.kind, "ballots of voter %d for candidate %d changed by %d", k[1], k[0], d)
+			}
+		}
+		if post.tdVotes[k] < 0 {
+			add("negative-stake", "voter %d has %d ballots for candidate %d", k[1], post.tdVotes[k], k[0])
+		}
+	}
+	// ... and a successful staking call puts exactly what it locked on the books of its initiator
+	if op.ok {
+		bad := func(format string, a ...interface{}) {
+			add("stake-record-changed-by-"+op.kind, "the call succeeded but "+format, a...)
+		}
+		switch op.kind {
+		case "propose":
+			if k := [2]int{post.lastPid, op.acct}; post.lastPid != pre.lastPid+1 || post.locks[k] != 1000 {
+				bad("the lock record of the proposer for the new proposal is %d (last id %d -> %d)", post.locks[k], pre.lastPid, post.lastPid)
+			}
+		case "vote":
+			if k := [2]int{op.pid, op.acct}; post.locks[k]-pre.locks[k] != op.amount {
+				bad("the lock record of the voter went %d -> %d for %d voted", pre.locks[k], post.locks[k], op.amount)
+			}
+		case "nominate":
+			if r, has := post.noms[op.to]; !has || r.nominator != op.acct || r.amount != op.amount {
+				bad("the nomination record of candidate %d is %v (present: %v)", op.to, r, has)
+			}
+		case "revnom":
+			if r, has := post.noms[op.to]; has {
+				bad("the nomination record of candidate %d is still there: %v", op.to, r)
+			}
+		case "tvote", "trevoke":
+			want := op.amount
+			if op.kind == "trevoke" {
+				want = -want
+			}
+			if k := [2]int{op.to, op.acct}; post.tdVotes[k]-pre.tdVotes[k] != want {
+				bad("the ballots of voter %d for candidate %d went %d -> %d", op.acct, op.to, pre.tdVotes[k], post.tdVotes[k])
+			}
+		}
 	}
 	// (3) locks bind transfers
 	if op.kind == "xfer" && op.ok {
@@ -664,6 +989,34 @@ func oracle(op opInfo, line string, pre, post *snap) []viol {
 		}
 	}
 	return vs
+}
+
+// stakes: what every account has staked, by lock type (0 ordinary: proposals still open; 1 tdpos: nominations and votes)
+func (s *snap) stakes() map[[2]int]int64 {
+	m := map[[2]int]int64{}
+	for k, amt := range s.locks {
+		if st := s.props[k[0]].status; st == "V" || st == "P" {
+			m[[2]int{k[1], 0}] += amt
+		}
+	}
+	for _, r := range s.noms {
+		m[[2]int{r.nominator, 1}] += r.amount
+	}
+	for k, amt := range s.tdVotes {
+		m[[2]int{k[1], 1}] += amt
+	}
+	return m
+}
+
+// tdOracleClass: the class of oracle a violation key belongs to (keys of violations raised in stale $tdpos calls
+// name the class only: they all have the one root cause)
+func tdOracleClass(key string) string {
+	for _, c := range []string{"open-stake-unlocked", "stake-record-changed", "lock-changed"} {
+		if strings.HasPrefix(key, c) {
+			return c
+		}
+	}
+	return key
 }
 
 // ---------------------------------------------------------------- case runner
@@ -832,6 +1185,28 @@ func lifecycleAlphabet() []string {
 		"xfer 1 0 500", "xfer 0 0 100", "propose 0 60 5 0 0", "timer 0", "unlock P 1 1000 o", "lock T 0 705 t", "xfer 0 1 705", "vote 50 1 0", "propose 1 60 7 0 0", "lock P 0 2295 o"}
 }
 
+// tdposAlphabet: the real $tdpos methods over accounts 0:3000 1:1500 (2 and 50 fresh): self and third-party
+// nominations (candidate co-signing or not), votes, withdrawals by the nominator / the candidate / a stranger,
+// mixed with transfers and the stub's raw Lock / UnLock; level 0 adds stale and invalid heights, bad amounts,
+// fresh accounts and proposal locks.
+func tdposAlphabet(level int) []string {
+	a := []string{"nominate 1 0 500 1 +", "nominate 0 0 500 0 +", "nominate 0 1 700 1 +", "tvote 0 0 600 +", "tvote 1 0 400 +", "tvote 0 1 600 +",
+		"revnom 1 0 +", "revnom 0 0 +", "revnom 0 1 +", "trevoke 0 0 600 +", "trevoke 1 0 400 +", "trevoke 0 0 100 +",
+		"xfer 0 1 2000", "xfer 1 0 1000", "lock T 0 500 t", "unlock T 0 500 t"}
+	if level == 2 { // core: deeper histories around one third-party and one self-made nomination
+		return []string{"nominate 1 0 500 1 +", "nominate 0 1 700 1 +", "tvote 0 0 600 +", "tvote 1 0 400 +", "revnom 1 0 +", "revnom 0 1 +",
+			"trevoke 0 0 600 +", "trevoke 1 0 400 +", "revnom 1 0 4", "xfer 0 1 2400"}
+	}
+	if level == 0 {
+		a = append(a, "revnom 1 0 2", "revnom 1 0 3", "revnom 0 0 3", "nominate 1 1 300 0 2", "nominate 0 1 300 1 3", "tvote 0 0 600 3", "tvote 1 0 100 4",
+			"trevoke 0 0 600 3", "trevoke 0 0 600 4", "nominate 0 0 500 0 1", "nominate 0 0 500 0 99", "tvote 0 0 1 0", "revnom 0 0 -1", "seal",
+			"nominate 0 0 0 0 +", "tvote 0 0 -5 +", "trevoke 0 0 0 +", "nominate 1 0 500 0 +", "nominate 2 2 1 0 +", "nominate 50 50 10 0 +",
+			"tvote 50 0 10 +", "nominate 1 1 1501 0 +", "tvote 1 0 1501 +", "propose 0 51 5 9 1", "vote 0 1 1000", "xfer 0 50 1000", "revnom 1 1 +",
+			"trevoke 0 1 600 +", "nominate 0 50 100 1 +", "revnom 0 50 +")
+	}
+	return a
+}
+
 // enumerate all sequences of exactly 1..depth calls from alphabet after the given prefix
 func enumerate(out *xvlib.Out, prefix []string, alpha []string, depth int) {
 	var rec func(cur []string, d int)
@@ -883,8 +1258,29 @@ func randomCase(r *xvlib.Rng) []string {
 	n := 2 + r.Intn(9)
 	props := 0
 	vias := []string{"P", "P", "P", "T", "T", "X", "O", "D"}
+	hgt := func() string {
+		if r.Chance(3, 4) {
+			return "+"
+		}
+		return strconv.Itoa(r.Intn(8))
+	}
 	for i := 0; i < n; i++ {
 		c := r.Intn(100)
+		if r.Chance(1, 3) {
+			switch t := r.Intn(9); {
+			case t < 3:
+				ops = append(ops, fmt.Sprintf("nominate %d %d %d %d %s", pick(), pick(), amt(), r.Intn(2), hgt()))
+			case t < 5:
+				ops = append(ops, fmt.Sprintf("tvote %d %d %d %s", pick(), pick(), amt(), hgt()))
+			case t < 6:
+				ops = append(ops, fmt.Sprintf("revnom %d %d %s", pick(), pick(), hgt()))
+			case t < 8:
+				ops = append(ops, fmt.Sprintf("trevoke %d %d %d %s", pick(), pick(), amt(), hgt()))
+			default:
+				ops = append(ops, "seal")
+			}
+			continue
+		}
 		switch {
 		case c < 28:
 			ops = append(ops, fmt.Sprintf("xfer %d %d %d", pick(), pick(), amt()))
@@ -987,6 +1383,59 @@ func directedCase(r *xvlib.Rng) []string {
 			return 1 + r.Intn(props+1)
 		}
 		c := r.Intn(100)
+		if r.Chance(3, 10) {
+			// a call of the real $tdpos contract, arguments from the live election records
+			hgt := "+"
+			if r.Chance(1, 5) {
+				hgt = strconv.Itoa(r.Intn(w.tip() + 2))
+			}
+			var cands []int
+			for cd := range s.noms {
+				cands = append(cands, cd)
+			}
+			sort.Ints(cands)
+			var vks [][2]int
+			for k := range s.tdVotes {
+				vks = append(vks, k)
+			}
+			sort.Slice(vks, func(i, j int) bool { return vks[i][0] < vks[j][0] || (vks[i][0] == vks[j][0] && vks[i][1] < vks[j][1]) })
+			switch t := r.Intn(10); {
+			case t < 3:
+				a, cd := holder(), pick()
+				auth := 1
+				if r.Chance(1, 5) {
+					auth = 0
+				}
+				if r.Chance(1, 3) {
+					cd = a
+				}
+				push(fmt.Sprintf("nominate %d %d %d %d %s", a, cd, around(s.bal[a].total-s.bal[a].tdpos), auth, hgt))
+			case t < 6:
+				a, cd := holder(), pick()
+				if len(cands) > 0 && !r.Chance(1, 6) {
+					cd = cands[r.Intn(len(cands))]
+				}
+				push(fmt.Sprintf("tvote %d %d %d %s", a, cd, around((s.bal[a].total-s.bal[a].tdpos)/2), hgt))
+			case t < 8:
+				a, cd := pick(), pick()
+				if len(cands) > 0 && !r.Chance(1, 6) {
+					cd = cands[r.Intn(len(cands))]
+					a = s.noms[cd].nominator
+					if r.Chance(1, 4) {
+						a = cd // the candidate (not the nominator) tries to withdraw
+					}
+				}
+				push(fmt.Sprintf("revnom %d %d %s", a, cd, hgt))
+			default:
+				a, cd, n := pick(), pick(), around(s.bal[pick()].tdpos)
+				if len(vks) > 0 && !r.Chance(1, 6) {
+					k := vks[r.Intn(len(vks))]
+					cd, a, n = k[0], k[1], around(s.tdVotes[k])
+				}
+				push(fmt.Sprintf("trevoke %d %d %d %s", a, cd, n, hgt))
+			}
+			continue
+		}
 		switch {
 		case c < 22:
 			f := holder()
@@ -1126,8 +1575,25 @@ func main() {
 		enumerate(out, []string{resetBig, "init 0", "propose 1 51 5 9 " + ok, "vote 0 1 2295", "timer 5"}, lifecycleAlphabet(), 3)
 	}
 	rules = append(rules, fmt.Sprintf("all sequences of <= %d calls over %d calls after a proposal that can pass (votes at threshold-1 / threshold, timers at stop and trigger heights, trigger target ok/failing)", lifeDepth, len(lifecycleAlphabet())))
+	// 2b. the real $tdpos contract: exhaustive short histories, then histories after a third-party nomination whose
+	// candidate has votes of its own locked
+	tdl := []lvl{{0, 2}, {1, 3}, {2, 4}}
+	tdLife := 2
+	if thorough {
+		tdl = []lvl{{0, 3}, {1, 4}, {2, 5}}
+		tdLife = 3
+	}
+	for _, l := range tdl {
+		al := tdposAlphabet(l.level)
+		enumerate(out, []string{resetBig, "init 0"}, al, l.depth)
+		rules = append(rules, fmt.Sprintf("all sequences of <= %d calls over %d calls of the real $tdpos contract (self / third-party nominations, votes, withdrawals, stale and invalid heights) mixed with transfers and raw Lock/UnLock", l.depth, len(al)))
+	}
+	enumerate(out, []string{resetBig, "init 0", "nominate 1 0 500 1 +", "tvote 0 0 600 +"}, tdposAlphabet(0), tdLife)
+	enumerate(out, []string{"reset 0:3000 1:1500 50:2500", "init 0", "nominate 50 1 400 1 +", "tvote 1 1 300 +", "tvote 50 1 300 +"}, tdposAlphabet(1), tdLife)
 	// 3. random longer sequences (duplicated genesis entries, lower-case account, all callers)
-	rng := xvlib.NewRng(args.Seed)
+	// xvlib.NewRng(s) and NewRng(s+1) are the same splitmix stream one draw apart (and the generators re-synchronise on
+	// it): spread the seeds so that different VERIF_SEEDs give unrelated streams
+	rng := xvlib.NewRng((args.Seed ^ (args.Seed << 29) ^ 0x5bf0a8b1457695) * 0xD6E8FEB86659FD93)
 	for i := 0; i < nRandom; i++ {
 		var c []string
 		if i%3 == 0 {
@@ -1142,5 +1608,5 @@ func main() {
 		}
 	}
 	out.Stats.Exhaustive = true
-	out.Stats.Rule = "exhaustive: " + strings.Join(rules, "; ") + fmt.Sprintf("; plus %d seeded random sequences of 2-13 calls, one third blind, two thirds state-directed (arguments chosen around the real available/locked balances, existing proposals and their heights) (transfers incl. self/fresh, lock/unlock from $proposal/$tdpos/$xpos/outsiders/top-level, propose/vote/thaw/timer, duplicated genesis addresses); every call is checked by the oracle against the decoded store; non-trivial = at least one successful call after init, distinct by op list", nRandom)
+	out.Stats.Rule = "exhaustive: " + strings.Join(rules, "; ") + fmt.Sprintf("; plus %d seeded random sequences of 2-13 calls, one third blind, two thirds state-directed (arguments chosen around the real available/locked balances, existing proposals and their heights) (transfers incl. self/fresh, lock/unlock from $proposal/$tdpos/$xpos/outsiders/top-level, propose/vote/thaw/timer, the real $tdpos nominate/vote/revoke at fresh, stale and invalid heights, duplicated genesis addresses); every call is checked by the oracle against the decoded store; non-trivial = at least one successful call after init, distinct by op list", nRandom)
 }
